@@ -321,6 +321,9 @@ def run(tier, seed):
                 else:
                     rep.cannot_decide('CONFIG.verbatim', where(f_, n_.get('l')), '`_config_` is assigned from `%s`, not from a parameter as a whole'
                                       % astu.src(rhs)[:60])
+            elif (t_.startswith('_config_.') or t_.startswith('this->_config_.')) and t_.split('_config_.')[-1].split('.')[0] in ('basename', 'logging'):
+                rep.add('CONFIG.verbatim', '%s:%s' % (f_['name'], t_), where(f_, n_.get('l')),
+                        '%s adjusts `%s` (file naming / verbosity only: no event depends on it)' % (f_['qn'], t_), True, nontrivial=False)
             elif t_.startswith('_config_.') or t_.startswith('this->_config_.'):
                 rep.add('CONFIG.verbatim', '%s:%s' % (f_['name'], t_), where(f_, n_.get('l')),
                         '%s rewrites the setting `%s`' % (f_['qn'], t_), False,
